@@ -37,7 +37,9 @@ CFG = {
                  "lemmas for the planar arrays; Flocq relative-error theorem + Interval for the binary32 scale clause) + "
                  "vm_compute correspondence check",
     "design_ref": "DESIGN.md §4 C15, §5 entry 16",
-    "n_quick": 256, "coqchk_timeout": 1500,  # Flocq + Coquelicot + Interval: the independent re-check of everything Properties/C15.v depends on takes > 40 min on a shared machine; when it does not finish the evidence says so (not a rejection)
+    "n_quick": 256, "coqchk_timeout": 1500,
+    "coqchk_modules": ["PF.Formats.SplatProofs", "PF.Formats.SpzProofs", "PF.Formats.SpzExtraProofs", "PF.Formats.SplatExtra", "PF.Formats.SplatPlyLink"],
+    "coqchk_note": "everything the discrete (Q/Z/byte-level) theorems of C15 depend on; the statement file and Formats/SplatInterval.v (Flocq + Coquelicot + Interval, real-number theorems) are NOT re-checked by coqchk: that run does not finish within an hour even on an idle machine - those theorems rest on coqc alone",
     "n_thorough": 6000,
     "rule": "random splat clouds (0-12 splats; rotations incl. identity, components exactly +-1, k/128, k/1024, "
             "outside [-1,1]; FDC beyond the displayable range and at byte/clamp boundaries; opacities up to +-800) "
